@@ -53,14 +53,14 @@ Definition number_static (c : numc) (v : pyval) : res unit :=
       end
   end.
 
-(* Positive / Negative / NonPositive / NonNegative .__set__ guard: the comparison itself raises
-   TypeError on operands Python cannot order against 0 *)
+(* Positive / Negative / NonPositive / NonNegative .__set__ guard: only a number (int, float, Decimal)
+   is compared with 0; anything else goes on to the next __set__ of the chain, whose type check rejects it *)
 Definition sign_check (s : sign) (v : pyval) : res unit :=
   match s with
   | SAny => Ok tt
   | _ =>
       match as_num v with
-      | None => Raise TypeError
+      | None => Ok tt
       | Some n =>
           let bad := match s with
                      | SPositive => num_leb n zero
@@ -205,17 +205,17 @@ Section WithOracle.
     | FAnything => (Ok v)
     | FEnumLit values => (if py_in v values then Ok v else Raise ValueError)
     | FEnumCls cls members =>
-        (if negb (py_hashable v) then Raise TypeError
-           else match v with
-                | PStr name =>
-                    match alist_get members name with
-                    | Some x => Ok (PEnum cls name x)
-                    | None => Raise ValueError
-                    end
-                | PEnum cls' name _ =>
-                    if pystr_eqb cls' cls && alist_has members name then Ok v else Raise ValueError
-                | _ => Raise ValueError
-                end)
+        (* only a str is looked up among the member names (hashed); any value is compared (==) with the members *)
+        (match v with
+           | PStr name =>
+               match alist_get members name with
+               | Some x => Ok (PEnum cls name x)
+               | None => Raise ValueError
+               end
+           | PEnum cls' name _ =>
+               if pystr_eqb cls' cls && alist_has members name then Ok v else Raise ValueError
+           | _ => Raise ValueError
+           end)
     | FSeqAny k sz u =>
         (match seq_items k v with
            | None => Raise TypeError
